@@ -149,6 +149,8 @@ def solution_shape(variant, calendar):
     sh = Shape(name, build, obligations, initialize=False)
     sh.grid = False
     sh.spec = (variant, calendar)
+    from symx.harness import crash_obligations
+    sh.on_exception = crash_obligations(PROP, name, "checks.c11:replay_crash", "no solution object for a model of the problem")
     # the delayed assignment leaves a non-negative busy span: delay_in + early_out <= duration
     sh.assumptions = lambda P: ([P.v("din") + P.v("eout") <= P.v("A_dur")] if "din" in P.terms else [])
     return sh
@@ -552,6 +554,28 @@ def replay_concrete(desc):
     if problems:
         print("CONFIRMED: " + problems[0])
         return 1
+    return 0
+
+
+def replay_crash(desc):
+    """the same layout at the witness parameters, through the public API and the real solver"""
+    import symx.harness as H
+
+    shape = H.get_shape(desc["module"], desc["shape"])
+    variant, calendar = shape.spec
+    w = desc["witness"]
+    try:
+        with quiet():
+            pb, tis, ws = declare(engine.Params("conc", values=w["params"]), variant, calendar)
+            sol = ps.SchedulingSolver(problem=pb).solve()
+    except Exception as e:
+        if H.raised_by_library(e):
+            print(f"CONFIRMED: solve() raised {type(e).__name__}: {str(e)[:200]} on a well-formed problem")
+            return 1
+        raise
+    finally:
+        engine.reset_z3_globals()
+    print(f"replay: solve() returned {'a solution' if sol else sol}")
     return 0
 
 
